@@ -46,6 +46,32 @@ def one_case(V, E, X):
         for k in list(C._next):
             C._next[k].add(('fresh', 1))
         C._next[('new', 0)] = set()
+    # argument forms: the node collection may be ANY iterable, in particular a set object that G itself handed out
+    # (next(v) returns the internal successor set); neither G nor the caller's object may change, and the answer
+    # must not depend on the form
+    forms_bad = []
+    if obs['reach'][0] == 'ok':
+        base = obs['reach'][1]
+        xs = list(X)
+        for form, mk in (('set', set), ('frozenset', frozenset), ('tuple', tuple)):   # containers only: a one-shot iterator is not a 'set of nodes'
+            arg = mk(xs)
+            keep = list(arg) if form == 'tuple' else set(arg)
+            r2 = call(lambda: G.get_reachable_set_from(arg))
+            if r2[0] != 'ok' or sorted(r2[1]) != base:
+                forms_bad.append('%s: %s' % (form, r2[1] if r2[0] != 'ok' else sorted(r2[1])))
+            elif keep is not None and (list(arg) if form == 'tuple' else set(arg)) != keep:
+                forms_bad.append('%s argument was modified' % form)
+            elif form == 'set' and r2[1] is arg:
+                forms_bad.append('the result IS the caller\'s set object')
+    for v in list(G._next)[:3]:
+        internal = G.next(v)
+        want = call(lambda: G.get_reachable_set_from(list(internal)))
+        got = call(lambda: G.get_reachable_set_from(internal))
+        if want[0] == 'ok' and (got[0] != 'ok' or sorted(got[1]) != sorted(want[1])):
+            forms_bad.append('next(%r) as argument: %s' % (v, got))
+        if got[0] == 'ok' and got[1] is internal:
+            forms_bad.append('the result IS the internal successor set of %r' % (v,))
+    obs['argument_forms'] = forms_bad
     obs['unchanged'] = (snap(G) == s0 and ids(G) == i0)
     return G, obs
 
@@ -283,6 +309,8 @@ def run(R):
             bad.append('aliasing')
         if not obs['unchanged']:
             bad.append('G modified')
+        if obs.get('argument_forms'):
+            bad.append('argument forms: ' + '; '.join(obs['argument_forms']))
         if bad:
             R.violation('graph operation differs from the proved model: %s' % ','.join(bad),
                         {'V': V, 'E': E, 'X': X, 'impl': obs, 'model': m, 'differs': bad})
